@@ -784,15 +784,19 @@ def program_variants(p):
         yield q
 
 
-def shrink(p, fails, budget=400):
-    """greedy descent: keep the first smaller variant on which `fails` still holds"""
+def shrink(p, fails, budget=1500):
+    """greedy descent to a local minimum: walk the list of smaller variants, keep every one on which
+    `fails` still holds and continue from the same position in the variant list of the new program"""
     used = 0
-    improved = True
-    while improved and used < budget:
-        improved = False
-        for q in program_variants(p):
-            if used >= budget:
+    changed = True
+    while changed and used < budget:
+        changed = False
+        idx = 0
+        while used < budget:
+            variants = list(program_variants(p))
+            if idx >= len(variants):
                 break
+            q = variants[idx]
             used += 1
             try:
                 ok = fails(q)
@@ -800,6 +804,7 @@ def shrink(p, fails, budget=400):
                 ok = False
             if ok:
                 p = q
-                improved = True
-                break
+                changed = True
+            else:
+                idx += 1
     return p, used
